@@ -45,7 +45,9 @@ def write_evidence(prop, tier, seed, hmod, jobs, rows, main_rows, decided, incon
         },
         'assumptions': list(getattr(hmod, 'ASSUMPTIONS', [])) + [
             'CrossHair 0.0.110 models of bytes/bytearray/int/str/dict and its path-exhaustion bookkeeping',
-            'shims S1-S10 (vlib/shims.py), each self-tested at the start of this run: %r' % (shim_selftests,)],
+            'shims S1-S12 (vlib/shims.py), each self-tested at the start of this run: %r' % (shim_selftests,),
+            'every analysis, replay and sanity input ran with the process time zone TZ=%s (correct code does not depend on it)' % os.environ.get('TZ', '?'),
+            'blocks marked native() in the harnesses run without the tracer on values the harness made concrete per path (if-chains over symbolic indices)'],
         'wall_s': round(wall, 1),
         'violations': len(violations),
     }
